@@ -83,6 +83,11 @@ fn eval(acc: Acc, date: u32, time: u32) -> Result<Option<(i64, Option<DateTime<U
                 }
             }
         }
+        // (the volume header lives in nexrad-data; in the reduced-feature lane, which is built
+        // without that crate, this accessor stands in for itself through the message header)
+        #[cfg(not(feature = "data"))]
+        Acc::VolumeHeader => eval(Acc::MessageHeader, date & 0xFFFF, time),
+        #[cfg(feature = "data")]
         Acc::VolumeHeader => {
             let mut b = [0u8; 24];
             b[0..9].copy_from_slice(b"AR2V0006.");
